@@ -69,7 +69,7 @@ var _ backoff.BackOff
 //@ props C03 C04 C05 C09 C10 C11 C13 C17 C18
 //@ at Transport).Send assert [C13.attempt-ctx] ctxChildOf(arg[context.Context](1), ctx)
 //@ requires [sess.valid] !isnil(s) && !isnil(s.v2ConnectionShared) && !isnil(s.buffer) && !isnil(s.transport) && !isnil(c) && !isnil(s.decode) && !isnil(ctx) && !isnil(s.confidentialityLayer)
-//@ requires [sess.term] isnil(terminalErr)
+//@ requires [sess.term] isnil(captured[error]())
 //@ requires [C09.bound] s.AuthenticatedSequenceNumbers.Inbound < 0xfffffffe
 //@ at SerializeLayers assert [C09.seq] s.v2SessionLayer.Sequence == old(s.AuthenticatedSequenceNumbers.Inbound)+1 && sends() == old(sends())
 //@ at SerializeLayers assert [C03+C17.wrapper] s.v2SessionLayer.Encrypted && s.v2SessionLayer.Authenticated && s.v2SessionLayer.ID == s.RemoteID &&
@@ -79,18 +79,18 @@ var _ backoff.BackOff
 //@ at SerializeLayers assert [C03+C10+C17.rmcp] s.rmcpLayer.Version == 6 && s.rmcpLayer.Sequence == 0xff && s.rmcpLayer.Class == 7 && !s.rmcpLayer.Ack
 //@ at Transport).Send assert [C09.send-seq] s.AuthenticatedSequenceNumbers.Inbound == old(s.AuthenticatedSequenceNumbers.Inbound)+1 && s.v2SessionLayer.Sequence == s.AuthenticatedSequenceNumbers.Inbound
 //@ ensures [C09.step] s.AuthenticatedSequenceNumbers.Inbound == old(s.AuthenticatedSequenceNumbers.Inbound)+uint32(sends()-old(sends())) && sends()-old(sends()) <= 1
-//@ ensures [C10.terminal] !isnil(terminalErr) ==> result == nil
-//@ ensures [C10.send-terminal] sends() > old(sends()) && lastSendFailed() ==> !isnil(terminalErr) // in a session a lost exchange ends the command: no retransmission
-//@ ensures [C10.sent] isnil(terminalErr) ==> sends() == old(sends())+1
-//@ ensures [C10+C11.stray-retried] !isnil(terminalErr) ==> sends() == old(sends()) || lastSendFailed() // a reply that arrived - stray, duplicated, for another command - never ends the command: the attempt is retried
-//@ ensures [C10.final] result == nil && isnil(terminalErr) ==> !s.messageLayer.CompletionCode.IsTemporary()
+//@ ensures [C10.terminal] !isnil(captured[error]()) ==> result == nil
+//@ ensures [C10.send-terminal] sends() > old(sends()) && lastSendFailed() ==> !isnil(captured[error]()) // in a session a lost exchange ends the command: no retransmission
+//@ ensures [C10.sent] isnil(captured[error]()) ==> sends() == old(sends())+1
+//@ ensures [C10+C11.stray-retried] !isnil(captured[error]()) ==> sends() == old(sends()) || lastSendFailed() // a reply that arrived - stray, duplicated, for another command - never ends the command: the attempt is retried
+//@ ensures [C10.final] result == nil && isnil(captured[error]()) ==> !s.messageLayer.CompletionCode.IsTemporary()
 //@ at return assert [C10.retry-only-temporary] arg[error](0) != nil ==> code == 0xc0 || code == 0xc3 // once a valid response is there, only the two temporary completion codes ask for a retransmission: any other code is final
-//@ ensures [C10.temporary] isnil(terminalErr) && sends() > old(sends()) && result == nil ==> s.messageLayer.CompletionCode != 0xc0 && s.messageLayer.CompletionCode != 0xc3
-//@ ensures [C04.accept] result == nil && isnil(terminalErr) && !isnil(s.integrityAlgorithm) ==> s.v2SessionLayer.Authenticated && s.v2SessionLayer.ID == s.LocalID
-//@ ensures [C04.session] result == nil && isnil(terminalErr) ==> s.v2SessionLayer.ID == s.LocalID
-//@ ensures [C11.match] result == nil && isnil(terminalErr) ==> s.messageLayer.Function == c.Operation().Function+1 && s.messageLayer.Command == c.Operation().Command &&
+//@ ensures [C10.temporary] isnil(captured[error]()) && sends() > old(sends()) && result == nil ==> s.messageLayer.CompletionCode != 0xc0 && s.messageLayer.CompletionCode != 0xc3
+//@ ensures [C04.accept] result == nil && isnil(captured[error]()) && !isnil(s.integrityAlgorithm) ==> s.v2SessionLayer.Authenticated && s.v2SessionLayer.ID == s.LocalID
+//@ ensures [C04.session] result == nil && isnil(captured[error]()) ==> s.v2SessionLayer.ID == s.LocalID
+//@ ensures [C11.match] result == nil && isnil(captured[error]()) ==> s.messageLayer.Function == c.Operation().Function+1 && s.messageLayer.Command == c.Operation().Command &&
 //@    s.messageLayer.Body == c.Operation().Body && s.messageLayer.Enterprise == c.Operation().Enterprise
-//@ ensures [C18.retry] metric(commandRetries) == old(metric(commandRetries))+ite(old(firstAttempt), 0, 1)
+//@ ensures [C18.retry] metric(commandRetries) == old(metric(commandRetries))+ite(old(captured[bool]()), 0, 1)
 //@ ensures [keep.metrics] metricsOnly(commandRetries, commandResponses)
 //@ at CounterVec).WithLabelValues assert [C04+C11+C18.response-counted] sends() == old(sends())+1 && s.v2SessionLayer.ID == s.LocalID && s.messageLayer.Function == c.Operation().Function+1 && s.messageLayer.Command == c.Operation().Command &&
 //@    s.messageLayer.Body == c.Operation().Body && s.messageLayer.Enterprise == c.Operation().Enterprise // only a reply of this session to the command that was sent is counted as a response
@@ -109,7 +109,7 @@ var _ backoff.BackOff
 //@ at return assert [C10.retry-only-temporary] arg[error](0) != nil ==> code == 0xc0 || code == 0xc3 // once a valid response is there, only the two temporary completion codes ask for a retransmission: any other code is final
 //@ ensures [C11.match] result == nil ==> s.messageLayer.Function == c.Operation().Function+1 && s.messageLayer.Command == c.Operation().Command &&
 //@    s.messageLayer.Body == c.Operation().Body && s.messageLayer.Enterprise == c.Operation().Enterprise
-//@ ensures [C18.retry] metric(commandRetries) == old(metric(commandRetries))+ite(old(firstAttempt), 0, 1)
+//@ ensures [C18.retry] metric(commandRetries) == old(metric(commandRetries))+ite(old(captured[bool]()), 0, 1)
 //@ ensures [keep.metrics] metricsOnly(commandRetries, commandResponses)
 //@ at CounterVec).WithLabelValues assert [C11+C18.response-counted] sends() == old(sends())+1 && s.messageLayer.Function == c.Operation().Function+1 && s.messageLayer.Command == c.Operation().Command &&
 //@    s.messageLayer.Body == c.Operation().Body && s.messageLayer.Enterprise == c.Operation().Enterprise // only a reply to the command that was sent is counted as a response
